@@ -313,9 +313,6 @@ pub fn oracle_enc(c: &EncCase, run: &EncRun) -> Result<(), String> {
 }
 
 pub fn enc_known_class(c: &EncCase) -> String {
-    if c.req.stream() && c.size == SizeSpec::Stream && !c.resp.no_chunking && !c.resp.bodiless_status() && !c.req.head() {
-        return "F18b-stream-request-chunked-header".into();
-    }
     if c.resp.status == 304 && !c.size.eofish() && !c.own().head() {
         return "F2-304-with-body".into();
     }
